@@ -22,8 +22,10 @@ CONSTANTS MaxBuffered,   \* 64  : "the last few dozen (about 50) buffered event 
           AgeMust        \* 15 s: "more than about ten seconds"
 
 Traces == JsonDeserialize(IOEnv.TRACE_FILE)
-VARIABLES tid, l, dur, dstate, flushT, prevOp
-vars == <<tid, l, dur, dstate, flushT, prevOp>>
+VARIABLES tid, l, dur, dstate, flushT, prevOp,
+          flushB       \* the previous flush as known when operation prevOp BEGAN (fixed at prevOp's first observation, which
+                       \* still shows what the operations before it made durable; commits that prevOp performs itself come later)
+vars == <<tid, l, dur, dstate, flushT, prevOp, flushB>>
 T == Traces[tid]
 Lazy == T.lazy
 Ops == T.ops
@@ -71,8 +73,12 @@ ClauseFor(j) ==
     ELSE IF \E q \in 1..Done : Kind(q) = "bucket" /\ j < EndIdx(q) THEN "bucket-op-not-durable"
     ELSE IF ~Lazy /\ j < EndIdx(Done) THEN "completed-op-not-durable"       \* auto-committing store
     ELSE IF Lazy /\ EndIdx(Done) - j > MaxBuffered THEN "too-many-buffered"
+    \* C18: "the previous flush" of a write is the last flush observed BEFORE the call was issued: a commit that the call
+    \* itself performs part-way does not excuse the statements it issues afterwards - the write as a whole must be durable
+    \* when it returns
     ELSE IF Lazy /\ \E q \in (IF prevOp = 0 THEN 1 ELSE prevOp)..Done :
-                       Kind(q) = "event" /\ TimeOf(q) - flushT >= AgeMust /\ j < EndIdx(q) THEN "old-write-not-flushed"   \* C18
+                       Kind(q) = "event" /\ TimeOf(q) - (IF q = prevOp THEN flushB ELSE flushT) >= AgeMust /\ j < EndIdx(q)
+         THEN "old-write-not-flushed"   \* C18
     ELSE "none"
 MaxOf(S) == CHOOSE x \in S : \A y \in S : y <= x
 Clause ==
@@ -81,7 +87,7 @@ Clause ==
   ELSE IF \E j \in Cands : ClauseFor(j) = "none" THEN "none"
   ELSE ClauseFor(MaxOf(Cands))
 
-Init == tid \in 1..Len(Traces) /\ l = 1 /\ dur = 0 /\ dstate = Empty /\ flushT = 0 /\ prevOp = 0
+Init == tid \in 1..Len(Traces) /\ l = 1 /\ dur = 0 /\ dstate = Empty /\ flushT = 0 /\ prevOp = 0 /\ flushB = 0
 Next ==
   /\ l <= Len(T.obs)
   /\ O.st.orph = <<>>
@@ -98,6 +104,7 @@ Next ==
                          THEN Max2(flushT, TimeOf(LastReal(Done)))
                     ELSE flushT
   /\ prevOp' = CurOp
+  /\ flushB' = IF CurOp # prevOp THEN flushT' ELSE flushB
   /\ l' = l + 1 /\ UNCHANGED tid
 Spec == Init /\ [][Next]_vars
 
